@@ -191,6 +191,23 @@ CHECKS["C13"]["text"] += (" Project variants ':clash' put d.mamba's content unde
 CHECKS["C14"]["text"] += (" Comment TEXT is varied too: 11 adversarial texts (##, ###, lone #, a quote, a brace, code, a trailing backslash, #!, a tab, non-ASCII) as whole-line and trailing comment at the first, a middle and the last code line of every base.")
 CHECKS["C19"]["text"] += (" Projects of several files with a fault that surfaces while the shared context is built (argument without type, duplicate parent, import alias mismatch) in each file in turn.")
 
+# ---- round 6
+CHECKS["C03"]["text"] += " S5 also: user classes NAMED like classes of the default context below built-in parents, next to 0 / 4 / 6 other classes; generic cycles; wide tuples."
+CHECKS["C03"]["note"] = (CHECKS["C03"].get("note", "") + " The stated size/nesting bound of the structural families is n <= 256: above it the recursion depth (linear in the input) overflows the 8 MiB stack - finding C03-F1; "
+                         "the first aborting n per family is reported in the evidence. A wall-clock observation (growth, deadline) that is not seen again when the case runs alone is dropped as load noise and counted.").strip()
+CHECKS["C04"]["text"] += " Element uses: every element of 12 heterogeneous tuple types, taken in 8 ways (index on literal / variable / parameter / field / call result, annotated, destructured, iterated), used with an operation of every element type - judged only when the checker accepts."
+CHECKS["C05"]["text"] += " Round 6: uses that stand BEHIND a return or raise of the same block (4 payload kinds); a method result / field read whose receiver is itself a call result (9 payload kinds)."
+CHECKS["C07"]["text"] += " Constructors whose self is fin (first assignment of a field, after a defaulted field; mutable control)."
+CHECKS["C09"]["text"] += " The constructor machine also has a LOCAL (define / use); constructor payloads on a class that re-declares a parent's field."
+CHECKS["C10"]["text"] += " Sources also with additive chains over {b, c, 1, 2} as bounds of ranges and slices, and signed numeric literals on either side of every binary operator."
+CHECKS["C11"]["text"] += " The pool includes the legal sequences of the scope machine (definitions without value, shadowing, blocks)."
+CHECKS["C14"]["text"] += " (15 comment texts, among them '##' alone.)"
+CHECKS["C15"]["text"] += " Bases with user classes as arguments of Dict / List / Set / tuple; the stub placeholders T, R, A, B as class names."
+CHECKS["C17"]["text"] += " Default-values family: 16 kinds of default value (numbers, strings, None, expressions, list / set / tuple / dict literals, nested lists, constructor calls) x function (line / block), method, explicit __init__."
+CHECKS["C18"]["text"] += " Nested-string sweeps: all bodies over {\", a, LF, SP, +, z} (length <= 5 / 7) inside the braces of another string literal, also after a line break."
+CHECKS["C19"]["text"] += " A caret under '<unknown>' instead of a quoted source line is a failure kind of its own."
+CHECKS["C20"]["text"] += " The universe has a non-generic class below an instantiation of a generic class (IL: List[Int], St: IL) and the law generic-ancestor (a class is assignable to each declared ancestor: 5 expected-true, 3 expected-false pairs)."
+
 
 def main():
     commits = subprocess.run(["git", "-C", "/repo", "log", "--format=%H %s"], stdout=subprocess.PIPE, text=True).stdout.splitlines()
